@@ -61,6 +61,37 @@ Definition unnamed_cte_column (raw : node) : bool :=
       (kid_items "TargetList" (kid "Ctequery" cte)))
     (search (is_kind "CommonTableExpr") raw).
 
+(** the sub-queries a star can range over by name: CTE bodies and derived tables *)
+Definition named_subqueries (raw : node) : list node :=
+  map (kid "Ctequery") (search (is_kind "CommonTableExpr") raw)
+  ++ map (kid "Subquery") (search (is_kind "RangeSubselect") raw).
+
+(** 6: such a sub-query has an un-aliased cast of a QUALIFIED column
+    (x.c::text): sqlc names the column x_c, PostgreSQL c; a star over the
+    sub-query is expanded to a column that does not exist *)
+Definition qualified_cast_column (raw : node) : bool :=
+  existsb (fun q =>
+    existsb (fun t =>
+      is_kind "ResTarget" t && match str_opt "Name" t with Some _ => false | None => true end
+      && is_kind "TypeCast" (kid "Val" t) && is_kind "ColumnRef" (kid "Arg" (kid "Val" t))
+      && Nat.ltb 1 (List.length (string_items (kid "Fields" (kid "Arg" (kid "Val" t))))))
+      (kid_items "TargetList" q))
+    (named_subqueries raw).
+
+(** 7: such a sub-query returns two columns of one name (SELECT a AS x, b AS x):
+    a star over it cannot be spelled out by name - the expansion is ambiguous *)
+Definition target_label (t : node) : string :=
+  match str_opt "Name" t with
+  | Some a => a
+  | None => let v := kid "Val" t in
+            if is_kind "ColumnRef" v then last (string_items (kid "Fields" v)) "" else ""
+  end.
+Definition duplicate_subquery_column (raw : node) : bool :=
+  existsb (fun q =>
+    let labels := filter (fun l => negb (String.eqb l "")) (map target_label (kid_items "TargetList" q)) in
+    negb (nodup_str labels))
+    (named_subqueries raw).
+
 Definition has_star0 (raw : node) : bool :=
   existsb (fun t => let v := kid "Val" t in is_kind "ColumnRef" v && has_star_ref v) (search (is_kind "ResTarget") raw).
 
@@ -70,8 +101,9 @@ Definition c02_class_e (e : env) (raw : node) : N :=
   else if existsb (fun u => negb (Nat.eqb (List.length (kid_items "FromClause" u)) 0)
                             && negb (Nat.eqb (List.length (kid_items "ReturningList" u)) 0))
                   (search (is_kind "UpdateStmt") raw) then 2
-  else if reserved_dup e raw then 4
   else if unnamed_cte_column raw && has_star0 raw then 5
+  else if qualified_cast_column raw && has_star0 raw then 6
+  else if duplicate_subquery_column raw && has_star0 raw then 7
   else 0.
 
 Definition c02_class (raw : node) : N :=
